@@ -43,6 +43,34 @@ def _demo():
     return ["-corrupt", c] if c else []
 
 
+def _hdr_cut(script):
+    """(abstract index of the first cut inside the header region, op that follows it) or None"""
+    st = script.get("steps", [])
+    for j, x in enumerate(st):
+        if x.get("op") == "cut" and x.get("at", {}).get("seg") == "hdr" and j + 1 < len(st):
+            return (x["at"]["i"], st[j + 1].get("op"))
+    return None
+
+
+def _header_matrix(main, extra, rnd, per):
+    """Cuts inside every part of the header region (boundary after the preamble, FILP header, INFO fork header, info
+    fork, DATA fork header, last header byte missing) x PreserveResourceForks on/off x followed by a resume and by a
+    fresh upload of the same name: TLC-emitted behaviours selected by their shape, each enacted in every combination."""
+    out = []
+    for i in (0, 1, 2):
+        for follow, pool in (("resume", main), ("request", extra)):
+            cands = [s for s in pool if _hdr_cut(s) == (i, follow)]
+            for s in rnd.sample(cands, min(per, len(cands))):
+                for pf in (True, False):
+                    for hseg in ((0, 1, 2, 3) if i == 1 else (-1,)):
+                        d = dict(s)
+                        d["pf"] = pf
+                        if hseg >= 0:
+                            d["hseg"] = hseg
+                        out.append(d)
+    return out
+
+
 def _write(path, items):
     with open(path, "w") as f:
         for it in items:
@@ -134,13 +162,14 @@ def run(ctx, prop):
         _, extra = ctx.generate("MC_Transfer", "Gen_Transfer_C09x.cfg", "up_extra.ndjson", prefix="U", timeout=900)
         ctx.notes["behaviours_emitted"] = {"cuts_and_resumes": len(main), "with_fresh_requests_and_foreign_files": len(extra)}
         rnd = random.Random(ctx.seed)
-        passes = 1 if quick else 8
+        passes = 1 if quick else 5
         big = 0 if quick else 5 * 1024 * 1024 + 1
         for p in range(passes):
             if quick:
-                items = rnd.sample(main, min(2200, len(main))) + rnd.sample(extra, min(800, len(extra)))
+                items = rnd.sample(main, min(2000, len(main))) + rnd.sample(extra, min(800, len(extra)))
+                items += _header_matrix(main, extra, rnd, 10)
             else:
-                items = list(main) + list(extra)
+                items = list(main) + list(extra) + _header_matrix(main, extra, rnd, 80)
             sp = ctx.path("up%d.ndjson" % p)
             _write(sp, items)
             lp = ctx.path("up%d.log.ndjson" % p)
@@ -161,6 +190,7 @@ def run(ctx, prop):
         ctx.notes["concretisation_passes"] = passes
         ctx.assumptions += [
             "the client's stream is delivered by a scripted connection that ends at the cut offset, half of the cuts with a connection error and half with a clean end of stream (FIN); the 16-byte preamble arrives in one segment (segmentation of the preamble is C02's subject), the rest in one or in random segments",
+            "a 203 request is followed by a keep-alive: when the keep-alive is answered and the request is not, the request got no reply (recorded as such; transactions of one connection are handled in order)",
             "after a cut the reference client resumes when it sees a partial file and starts afresh when it sees none (an absent partial file with nothing received is accepted)",
             "a non-resume upload that meets a left-over partial file may replace it at any moment before its first data byte is stored (0 bytes and the old length are both accepted until then)",
             "resource/info side files are logged but not judged, except that the round-trip download compares the data fork",
